@@ -29,7 +29,9 @@ theorem feCall_spec (cfg : Cfg) (hs : 0 < cfg.shift) (hss : cfg.shift ≤ cfg.si
       (k + f) * cfg.shift + o' + n' = k * cfg.shift + o + n ∧ n' ≤ n ∧ (1 ≤ lim → 1 ≤ n → n' < n) := by
   obtain ⟨fe', used, o', h1, R', hpos, hle, hfull⟩ := process_spec cfg hs hss h.rest n lim
   have hcall : feCall cfg x lim =
-      ({ x with fe := fe', buf := x.buf.drop used }, ⟨min (avail cfg n o) lim, decide (used < x.buf.length)⟩) := by
+      ({ x with fe := fe', buf := x.buf.drop used,
+                calls := (lim, min (avail cfg n o) lim, x.buf.length - used) :: x.calls },
+        ⟨min (avail cfg n o) lim, decide (used < x.buf.length)⟩) := by
     simp only [feCall, h.buf, h1]
   rw [hcall]
   refine ⟨min (avail cfg n o) lim, o', n - used, ?_, Nat.min_le_right _ _, rfl, rfl, ⟨R', ?_, h.ok⟩, by omega, by omega, ?_⟩
@@ -443,7 +445,7 @@ theorem decProcessS_spec (cfg : Cfg) (hs : 0 < cfg.shift) (hss : cfg.shift ≤ c
       rfl, by rw [g3]; rfl, ?_⟩
     simp only [decProcess, hst, if_false, isEmpty_nil, if_true]
   · obtain ⟨x0, hx0⟩ : ∃ x0 : FS,
-        x0 = FS.mk (if ns then setGrow x.st true else x.st) x.fe (range' x.pos n) (x.pos + n) x.feBad := ⟨_, rfl⟩
+        x0 = FS.mk (if ns then setGrow x.st true else x.st) x.fe (range' x.pos n) (x.pos + n) x.feBad x.calls := ⟨_, rfl⟩
     have hD : decProcessS cfg true win skip x ns n =
         ((decLoopS cfg true win skip ns (n + 1) x0).x, (decLoopS cfg true win skip ns (n + 1) x0).rs) := by
       rw [hx0]
@@ -575,8 +577,8 @@ theorem runOps_closed_next (win : Nat) (skip : Nat → Bool) : ∀ (post : List 
 theorem decEndS_spec (cfg : Cfg) (hs : 0 < cfg.shift) (hlt : cfg.shift < cfg.size)
     (win : Nat) (skip : Nat → Bool) (hw : 3 * win + 2 ≤ livebuf) (b0 : Nat) (x : FS) (o : Nat)
     (h : OpenS cfg win b0 x o) (hB : b0 + x.st.nextId + (if 0 < o then 1 else 0) ≤ cmnWinHwm) :
-    ∃ fe', decEndS cfg true win skip x =
-        ({ x with fe := fe', st := decEnd true win skip x.st (decide (0 < o)) }, decide (0 < o)) ∧
+    ∃ fe' cl, decEndS cfg true win skip x =
+        ({ x with fe := fe', st := decEnd true win skip x.st (decide (0 < o)), calls := cl }, decide (0 < o)) ∧
       fe'.out = (List.range x.st.nextId).map (fullFrame cfg.size cfg.shift) ++
         (if 0 < o then [tailFrame cfg.shift x.st.nextId o] else []) ∧
       Closed win (decEnd true win skip x.st (decide (0 < o))) ∧
@@ -608,7 +610,8 @@ theorem decEndS_spec (cfg : Cfg) (hs : 0 < cfg.shift) (hlt : cfg.shift < cfg.siz
     · simp [ho]
   have hb : x.st.cmnFrames + (if decide (0 < o) = true then 1 else 0) ≤ cmnWinHwm := by
     have := h.cmn; rw [hite]; omega
-  refine ⟨fe', ?_, f2, decEnd_closed win skip x.st _ h.op hfe hb hw, ?_, hfe⟩
+  refine ⟨fe', (x.st.nMfcAlloc - (x.st.mfcOutidx + x.st.nMfcFrame) % x.st.nMfcAlloc, (if 0 < o then 1 else 0), 0) :: x.calls,
+    ?_, f2, decEnd_closed win skip x.st _ h.op hfe hb hw, ?_, hfe⟩
   · simp only [decEndS, hst, if_false, show x.st.nMfcFrame < x.st.nMfcAlloc by omega, if_true, f1, hdec]
   · rw [decEnd_nextId win skip x.st _ h.op hfe hb hw, hite]
 
